@@ -143,7 +143,29 @@ fn small_expected(s: &Small, labels: &mut Vec<&'static str>) -> Option<Vec<Strin
         Small::Ls(v) => ls_errors(v),
         Small::Mpt(v) => v.iter().enumerate().filter(|(_, p)| !fin(p)).map(|(i, _)| format!("InvalidPoint(GeometryIndex({i}), NonFiniteCoord)")).collect(),
         Small::Mls(v) => v.iter().enumerate().flat_map(|(i, l)| ls_errors(l).into_iter().map(move |e| format!("InvalidLineString(GeometryIndex({i}), {e})"))).collect(),
-        Small::Coll(_) => return None,
+        Small::Coll(v) => {
+            // every member's errors, wrapped with the member's position among ALL members (empty ones included)
+            let mut out = vec![];
+            for (i, m) in v.iter().enumerate() {
+                let wrapper = match m {
+                    Small::Pt(_) => "InvalidPoint",
+                    Small::Ln(..) => "InvalidLine",
+                    Small::Tri(..) => "InvalidTriangle",
+                    Small::Rc(..) => "InvalidRect",
+                    Small::Ls(_) => "InvalidLineString",
+                    Small::Mpt(_) => "InvalidMultiPoint",
+                    Small::Mls(_) => "InvalidMultiLineString",
+                    Small::Coll(_) => "InvalidGeometryCollection",
+                };
+                for e in small_expected(m, labels)? {
+                    out.push(format!("InvalidGeometry(GeometryIndex({i}), {wrapper}({e}))"));
+                    if v[..i].iter().any(|q| matches!(q, Small::Ls(l) if l.is_empty()) || matches!(q, Small::Mpt(l) if l.is_empty()) || matches!(q, Small::Mls(l) if l.is_empty()) || matches!(q, Small::Coll(l) if l.is_empty())) {
+                        labels.push("small:invalid-member-after-an-empty-one");
+                    }
+                }
+            }
+            out
+        }
     })
 }
 
@@ -275,13 +297,17 @@ fn mutate(g: &G, op: u8, s: u64) -> G {
             9 => {
                 // too few coordinates
                 let (a, b) = (p.ext[0], p.ext[1]);
-                match pick(3, 1) {
+                // (also with the closing coordinate or an inner one stored twice: still fewer than three distinct vertices)
+                match pick(7, 1) {
                     0 => p.ext = vec![a, b, a],
                     1 => p.ext = vec![a, a, b, a],
+                    2 => p.ext = vec![a, b, a, a],
+                    3 => p.ext = vec![a, b, b, a, a],
+                    4 => p.ext = vec![a, b, a, a, a],
                     _ => {
                         if !p.holes.is_empty() {
                             let h = p.holes[0].clone();
-                            p.holes[0] = vec![h[0], h[1], h[0]];
+                            p.holes[0] = if pick(2, 2) == 0 { vec![h[0], h[1], h[0]] } else { vec![h[0], h[1], h[0], h[0]] };
                         } else {
                             p.ext = vec![a];
                         }
